@@ -6,16 +6,19 @@
    from the initial Lua 5.3 state, with any sufficiently large fuel, prints the same lines and ends the
    same way.
 
-   Structure: the global assignment V<pv> = print; the body of `start` (fbody_sim, on top of
-   SimStmt.P_stmt_all and SimExprProofs.P_eval_all); fragment programs never complete abruptly
-   (NA_block_value) and the interpreter never stops with ODone (SemSane); program_sim for any Lua state with
+   Structure: the global assignment V<pv> = print; the body of `start` (fbody_sim, on top of SimStmt.P_all:
+   expressions, statements, statement lists and if-branch bodies together); fragment programs have no `ret`
+   (NoRet.NR_all), a break/continue that reaches the body of `start` makes the reference run OStuck (outside
+   good_final), and the interpreter never stops with ODone (SemSane); program_sim for any Lua state with
    the preamble invariant; the preamble run (Preamble.pre_runs, exec_block_app_run). *)
 From Coq Require Import String Ascii List NArith ZArith QArith Bool Lia.
 From Sylt Require Import Syntax.Resolved.
 From Sylt Require Sem.Values Sem.Runtime Sem.SyltSem.
 From Sylt Require Import Back.IR Back.Emit Back.ScopeProofs.
-From Sylt Require Import Pres.EmitAst Pres.EmitRel Pres.Names Pres.LuaFuel Pres.LuaEv Pres.Preamble Pres.Frag Pres.Tie.
-From Sylt Require Import Pres.SimDefs Pres.SimOps Pres.SimVals Pres.SimExpr Pres.LowerShape Pres.SimSteps Pres.SimExprProofs Pres.SimStmt.
+From Sylt Require Import Pres.EmitAst Pres.EmitRel Pres.Names Pres.LuaFuel Pres.LuaEv Pres.Preamble Pres.Tie.
+From Sylt Require Import Pres.Frag.
+From Sylt Require Import Pres.SimDefs Pres.SimOps Pres.SimVals.
+From Sylt Require Import Pres.SimExpr Pres.LowerShape Pres.SimSteps Pres.SimExprProofs Pres.SimStmt Pres.NoExit Pres.NoRet.
 From Sylt Require Pres.SemSane.
 From Sylt Require Import Lua.LuaAst Lua.LuaMap Lua.LuaNum Lua.LuaProofs Lua.LuaCore.
 Import ListNotations.
@@ -79,7 +82,6 @@ Qed.
 Lemma glob_set_global st v : glob (raw_set_in st globals_id (VStr (fmt_var v)) (VBuiltin BPrint)) (fmt_var v) (VBuiltin BPrint).
 Proof. unfold glob. rewrite get_table_raw_set_in, raw_get_set_str by reflexivity. rewrite String.eqb_refl. reflexivity. Qed.
 
-Definition noab {A} (r : SyltSem.res A) : Prop := match r with SyltSem.RAbrupt _ => False | _ => True end.
 
 (* ------------------------------------------------------------------ the body of `start` *)
 
@@ -155,8 +157,8 @@ Proof.
     assert (Hle : c <= c0 /\ c0 <= c').
     { destruct (L_stmts_all pv sv bound u g k (rev init_rev) ctx c cs c0 sc sc1 l Hmi Hfi) as (_ & _ & (_ & H1 & _)).
       split; [exact H1|]. destruct last; try (destruct (L_stmt_all pv sv bound u g k' _ ctx c0 a0 c' sc1 sc2 l Hm0 Hflast) as (_ & _ & (_ & H2 & _)); exact H2).
-      destruct k' as [|k'']; [discriminate|]. rewrite frag_stmt_sexpr in Hflast. destruct (frag_expr pv k'' sc1 value) eqn:Hfe; [|discriminate Hflast].
-      mon Hm0. destruct a as [cv rv]. destruct (L_expr_all pv u g k'' value ctx c0 cv rv c' sc1 l Hm Hfe) as (_ & _ & (_ & H2 & _) & _). exact H2. }
+      destruct k' as [|k'']; [discriminate|]. rewrite frag_stmt_sexpr in Hflast. destruct (frag_expr pv sv bound k'' sc1 value) eqn:Hfe; [|discriminate Hflast].
+      mon Hm0. destruct a as [cv rv]. destruct (L_expr_all pv sv bound u g k'' value ctx c0 cv rv c' sc1 l Hm Hfe) as (_ & _ & (_ & H2 & _) & _). exact H2. }
     destruct Hle as [Hc0 Hc0'].
     assert (Hctxi : ctx_ok l F E c c0) by (eapply ctx_sub; [exact Hctx | lia | lia]).
     assert (Hgen : SyltSem.bind (SyltSem.exec_block n e (rev init_rev ++ [last])) (fun _ : senv => SyltSem.ret (SV Values.VLuaNil)) st = (r, st') ->
@@ -170,11 +172,11 @@ Proof.
       destruct (SyltSem.exec_block n e (rev init_rev ++ [last]) st) as [[e1|o|cc] st1] eqn:He1.
       3: { inversion Hev'; subst. destruct Hna. }
       2: { inversion Hev'; subst.
-           destruct (proj2 (P_stmt_all pv sv bound u n) g k _ ctx c _ c' e st _ st' sc sc' l E stL F He1 Hmall Hfrag Huall Hctx Hrel Hint)
+           destruct (proj1 (proj2 (proj2 (P_all pv sv bound u n))) g k _ ctx c _ c' e st _ st' sc sc' l E stL F He1 Hmall Hfrag Huall Hctx Hrel Hint)
              as (b1 & l1 & Hs1 & Hpost). rewrite Hcc in Hs1.
            eexists _, _. split; [exact Hs1 | cbn [stmt_post] in Hpost; cbn [body_post]; eapply stop_of_exit; exact Hpost]. }
       cbn in Hev'. inversion Hev'; subst r st'. clear Hev'.
-      destruct (proj2 (P_stmt_all pv sv bound u n) g k _ ctx c _ c' e st _ st1 sc sc' l E stL F He1 Hmall Hfrag Huall Hctx Hrel I)
+      destruct (proj1 (proj2 (proj2 (P_all pv sv bound u n))) g k _ ctx c _ c' e st _ st1 sc sc' l E stL F He1 Hmall Hfrag Huall Hctx Hrel I)
         as (b1 & l1 & Hs1 & E1 & stL1 & F1 & (Hx1 & _ & Hrel1 & _) & _). rewrite Hcc in Hs1.
       eexists _, _. split; [exact Hs1|].
       exists E1, SigNormal, stL1. splits; [exact Hx1 | left; reflexivity | apply (r_trace _ _ _ _ _ _ _ Hrel1)]. }
@@ -182,37 +184,37 @@ Proof.
     (* the last statement is an expression: its value is returned *)
     clear Hgen.
     destruct k' as [|k'']; [discriminate|]. rewrite frag_stmt_sexpr in Hflast.
-    destruct (frag_expr pv k'' sc1 value) eqn:Hfe; [|discriminate Hflast].
+    destruct (frag_expr pv sv bound k'' sc1 value) eqn:Hfe; [|discriminate Hflast].
     mon Hm0. destruct a as [code_v rv]. cbn [fst snd] in *.
     apply ucovers_app in Hul as [Huv Hur].
     assert (Hcrv : 1 <= count_of u rv) by (eapply Hur; [left; reflexivity | left; reflexivity]).
     assert (Hrest : forall l0, exists b2 l2, cshape u l0 code_v b2 l2 c0 c' /\ c0 <= rv /\ rv < c')
-      by (intros l0; apply (L_expr_all pv u g k'' value ctx c0 code_v rv c' sc1 l0 Hm Hfe)).
+      by (intros l0; apply (L_expr_all pv sv bound u g k'' value ctx c0 code_v rv c' sc1 l0 Hm Hfe)).
     assert (Hret : forall l0, cshape u l0 [IReturn rv] (fst (agen_one u l0 (IReturn rv))) l0 c' c')
       by (intros l0; apply cshape_plain; [lia | reflexivity | reflexivity | reflexivity]).
     unfold SyltSem.bind at 1 in Hev.
     destruct (SyltSem.exec_block n e (rev init_rev) st) as [[e1|o|cc] st1] eqn:He1.
     3: { inversion Hev; subst. destruct Hna. }
     2: { inversion Hev; subst.
-         destruct (proj2 (P_stmt_all pv sv bound u n) g k _ ctx c _ c0 e st _ st' sc sc1 l E stL F He1 Hmi Hfi Hui Hctxi Hrel Hint)
+         destruct (proj1 (proj2 (proj2 (P_all pv sv bound u n))) g k _ ctx c _ c0 e st _ st' sc sc1 l E stL F He1 Hmi Hfi Hui Hctxi Hrel Hint)
            as (b1 & l1 & Hs1 & Hp1). apply stop_of_exit in Hp1 as (ev & stL1 & Hx1 & Htr).
          destruct (Hrest l1) as (b2 & l2 & Hs2 & _).
          eexists _, _. split; [eapply cshape_app; [exact Hs1|]; eapply cshape_app; [exact Hs2 | apply Hret]|].
          exists ev, stL1. split; [apply ExecS_app_stop; [exact Hx1 | intros []] | exact Htr]. }
-    destruct (proj2 (P_stmt_all pv sv bound u n) g k _ ctx c _ c0 e st _ st1 sc sc1 l E stL F He1 Hmi Hfi Hui Hctxi Hrel I)
+    destruct (proj1 (proj2 (proj2 (P_all pv sv bound u n))) g k _ ctx c _ c0 e st _ st1 sc sc1 l E stL F He1 Hmi Hfi Hui Hctxi Hrel I)
       as (b1 & l1 & Hs1 & E1 & stL1 & F1 & Hok1 & _ & _).
     pose proof Hok1 as (Hx1 & _ & Hrel1 & _).
     assert (Hctx1 : ctx_ok l1 F1 E1 c0 c') by (eapply (ctx_afterS pv bound u); eassumption).
     destruct (SyltSem.eval n e1 value st1) as [[v_|o|cc] st2] eqn:He2.
     3: { inversion Hev; subst. destruct Hna. }
     2: { inversion Hev; subst.
-         destruct (P_eval_all pv bound u n g k'' value ctx c0 code_v rv c' e1 st1 _ st' sc1 l1 E1 stL1 F1 He2 Hm Hfe Huv Hctx1 Hrel1 Hint)
+         destruct (proj1 (P_all pv sv bound u n) g k'' value ctx c0 code_v rv c' e1 st1 _ st' sc1 l1 E1 stL1 F1 He2 Hm Hfe Huv Hctx1 Hrel1 Hint)
            as (b2 & l2 & Hs2 & _ & _ & Hp2). apply stop_of_exit in Hp2 as (ev & stL2 & Hx2 & Htr).
          eexists _, _. split; [eapply cshape_app; [exact Hs1|]; eapply cshape_app; [exact Hs2 | apply Hret]|].
          exists ev, stL2. split; [|exact Htr].
          eapply ExecS_app; [exact Hx1|]. apply ExecS_app_stop; [exact Hx2 | intros []]. }
     inversion Hev; subst r st'. clear Hev.
-    destruct (P_eval_all pv bound u n g k'' value ctx c0 code_v rv c' e1 st1 _ st2 sc1 l1 E1 stL1 F1 He2 Hm Hfe Huv Hctx1 Hrel1 I)
+    destruct (proj1 (P_all pv sv bound u n) g k'' value ctx c0 code_v rv c' e1 st1 _ st2 sc1 l1 E1 stL1 F1 He2 Hm Hfe Huv Hctx1 Hrel1 I)
       as (b2 & l2 & Hs2 & _ & _ & E2 & stL2 & F2 & Hok2 & Hd2). specialize (Hd2 Hcrv).
     pose proof Hok2 as (Hx2 & _ & Hrel2 & _).
     eexists _, _. split; [eapply cshape_app; [exact Hs1|]; eapply cshape_app; [exact Hs2 | apply Hret]|].
@@ -249,163 +251,14 @@ Proof.
     destruct (L_stmts_all pv sv bound u g k (rev init_rev) ctx c cs c0 sc sc1 l Hmi Hfi) as (b1 & l1 & Hs1).
     destruct last; try (destruct (L_stmt_all pv sv bound u g k' _ ctx c0 a0 c' sc1 sc2 l1 Hm0 Hflast) as (b2 & l2 & Hs2);
                         eexists _, _; eapply cshape_app; eassumption).
-    destruct k' as [|k'']; [discriminate|]. rewrite frag_stmt_sexpr in Hflast. destruct (frag_expr pv k'' sc1 value) eqn:Hfe; [|discriminate Hflast].
+    destruct k' as [|k'']; [discriminate|]. rewrite frag_stmt_sexpr in Hflast. destruct (frag_expr pv sv bound k'' sc1 value) eqn:Hfe; [|discriminate Hflast].
     mon Hm0. destruct a as [cv rv]. cbn [fst snd] in *.
-    destruct (L_expr_all pv u g k'' value ctx c0 cv rv c' sc1 l1 Hm Hfe) as (b2 & l2 & Hs2 & _).
+    destruct (L_expr_all pv sv bound u g k'' value ctx c0 cv rv c' sc1 l1 Hm Hfe) as (b2 & l2 & Hs2 & _).
     eexists _, _. eapply cshape_app; [exact Hs1|]. eapply cshape_app; [exact Hs2|].
     apply (cshape_plain u l2 (IReturn rv) c' c'); [lia | reflexivity | reflexivity | reflexivity].
 Qed.
 End FBodyShape.
 
-(* ------------------------------------------------------------------ fragment programs never complete abruptly (stage 1: no break/continue/ret) *)
-Section NoAbrupt.
-Variable pv : N.
-Variable sv : N.
-Variable bound : N.
-
-
-Lemma noab_bind {A B} (m : SyltSem.M A) (k : A -> SyltSem.M B) st r st' :
-  SyltSem.bind m k st = (r, st') ->
-  (forall a st1, m st = (a, st1) -> noab a) ->
-  (forall a st1, m st = (SyltSem.RVal a, st1) -> k a st1 = (r, st') -> noab r) -> noab r.
-Proof.
-  unfold SyltSem.bind. destruct (m st) as [[a|o|c] st1] eqn:E; intros H H1 H2.
-  - eapply H2; [reflexivity | exact H].
-  - inversion H; subst. exact I.
-  - specialize (H1 _ _ eq_refl). destruct H1.
-Qed.
-
-Lemma noab_lift {A} w (x : Values.res A) st r st' : SyltSem.lift_res w x st = (r, st') -> noab r.
-Proof. destruct x; cbn; intros H; inversion H; subst; exact I. Qed.
-
-Lemma noab_binop_val op a b st r st' : SyltSem.binop_val op a b st = (r, st') -> noab r.
-Proof. intros H. apply binop_val_res in H. destruct r; cbn; auto. Qed.
-
-Lemma noab_truth w v st r st' : SyltSem.truth w v st = (r, st') -> noab r.
-Proof. unfold SyltSem.truth. destruct v as [[]| | |]; cbn; intros H; inversion H; subst; exact I. Qed.
-
-Lemma noab_snapshot v st r st' : SyltSem.snapshot v st = (r, st') -> noab r.
-Proof. unfold SyltSem.snapshot. destruct (SyltSem.reify 64 st v); intros H; inversion H; subst; exact I. Qed.
-
-Lemma noab_as_value w v st r st' : SyltSem.as_value w v st = (r, st') -> noab r.
-Proof. destruct v; cbn; intros H; inversion H; subst; exact I. Qed.
-
-Lemma noab_new_cells args : forall st r st', SyltSem.mapM SyltSem.new_cell args st = (r, st') -> noab r.
-Proof.
-  induction args as [|a args IH]; intros st r st' H; cbn [SyltSem.mapM] in H.
-  - inversion H; subst; exact I.
-  - eapply noab_bind; [exact H | intros ? ? Hn; inversion Hn; subst; exact I |].
-    intros c st1 _ H'. eapply noab_bind; [exact H' | intros ? ? Hn; eapply IH; exact Hn |].
-    intros cs st2 _ H''. inversion H''; subst; exact I.
-Qed.
-
-Lemma noab_apply n fv avs st r st' : SyltSem.apply n fv avs st = (r, st') -> noab r.
-Proof.
-  intros H. destruct n as [|n]; [cbn in H; inversion H; subst; exact I|]. cbn [SyltSem.apply] in H.
-  destruct fv; try (inversion H; subst; exact I).
-  - eapply noab_bind; [exact H | |].
-    + intros a0 st3 Hg. unfold SyltSem.get_clos in Hg. destruct (nth_error (SyltSem.clos st) c); inversion Hg; subst; exact I.
-    + intros cl st3 _ H'. cbv beta in H'. destruct (Nat.eqb (length (SyltSem.cl_params cl)) (length avs)); [|inversion H'; subst; exact I].
-      eapply noab_bind; [exact H' | intros ? ? Hn; eapply noab_new_cells; exact Hn |].
-      intros cs st4 _ H''. cbv beta in H''.
-      destruct (SyltSem.block_value n (combine (SyltSem.cl_params cl) cs ++ SyltSem.cl_env cl) (SyltSem.cl_body cl) st4) as [[v|o|[| |v]] st5];
-        inversion H''; subst; exact I.
-  - destruct (String.eqb name "print"); [|inversion H; subst; exact I].
-    destruct avs as [|a1 [|? ?]]; try (inversion H; subst; exact I).
-    eapply noab_bind; [exact H | intros ? ? Hs; eapply noab_snapshot; exact Hs |].
-    intros xv st3 _ H''. cbn in H''. inversion H''; subst; exact I.
-Qed.
-
-Definition NA_eval (n : nat) : Prop :=
-  forall k sc e x st r st', frag_expr pv k sc x = true -> SyltSem.eval n e x st = (r, st') -> noab r.
-
-Lemma NA_eval_all n : NA_eval n.
-Proof.
-  induction n as [|n IH]; intros k sc e x st r st' Hf Hev.
-  - cbn in Hev. inversion Hev; subst; exact I.
-  - destruct k as [|k]; [discriminate|].
-    destruct x; try discriminate Hf; cbn [frag_expr] in Hf; cbn [SyltSem.eval] in Hev.
-    + (* ERead *)
-      destruct (SyltSem.lookup e var); [|inversion Hev; subst; exact I].
-      unfold SyltSem.read_cell in Hev. destruct (nth_error (SyltSem.cells st) n0); inversion Hev; subst; exact I.
-    + (* ECall print *)
-      destruct x; try discriminate Hf. destruct args as [|a [|? ?]]; try discriminate Hf.
-      frag_split Hf.
-      eapply noab_bind; [exact Hev | |].
-      * intros a0 st1 H. destruct n as [|n']; [cbn in H; inversion H; subst; exact I|]. cbn [SyltSem.eval] in H.
-        destruct (SyltSem.lookup e var); [|inversion H; subst; exact I].
-        unfold SyltSem.read_cell in H. destruct (nth_error (SyltSem.cells st) n); inversion H; subst; exact I.
-      * intros fv st1 _ H. eapply noab_bind; [exact H | |].
-        -- intros a0 st2 H'. rewrite smapM_one in H'. destruct (SyltSem.eval n e a st1) as [[y|o|c] st3] eqn:Ea; inversion H'; subst; try exact I.
-           apply (IH k sc e a st1 _ _ Hfr Ea).
-        -- intros avs st2 _ H'. eapply noab_apply; exact H'.
-    + (* EBinOp *)
-      frag_split Hf.
-      assert (Ha : forall st0 r0 st1, SyltSem.eval n e x1 st0 = (r0, st1) -> noab r0) by (intros st0 r0 st1 H; exact (IH k sc e x1 st0 r0 st1 Hfr0 H)).
-      assert (Hb : forall st0 r0 st1, SyltSem.eval n e x2 st0 = (r0, st1) -> noab r0) by (intros st0 r0 st1 H; exact (IH k sc e x2 st0 r0 st1 Hfr H)).
-      destruct op; try discriminate Hf;
-        (eapply noab_bind; [exact Hev | intros; eapply Ha; eassumption |]); intros va st1 _ H1.
-      all: try (eapply noab_bind; [exact H1 | intros; eapply Hb; eassumption |]; intros vb st2 _ H2;
-                eapply noab_bind; [exact H2 | intros; eapply noab_snapshot; eassumption |]; intros xa st3 _ H3;
-                eapply noab_bind; [exact H3 | intros; eapply noab_snapshot; eassumption |]; intros xb st4 _ H4).
-      all: try (eapply noab_bind; [exact H4 | intros; eapply noab_binop_val; eassumption |]; intros rv st5 _ H5; inversion H5; subst; exact I).
-      * (* <=> *) cbv beta in H4. destruct (Runtime.rt_eq xa xb); inversion H4; subst; exact I.
-      * (* and *) eapply noab_bind; [exact H1 | intros; eapply noab_truth; eassumption |]. intros ba st2 _ H2.
-        cbv beta in H2. destruct ba; [eapply Hb; exact H2 | inversion H2; subst; exact I].
-      * (* or *) eapply noab_bind; [exact H1 | intros; eapply noab_truth; eassumption |]. intros ba st2 _ H2.
-        cbv beta in H2. destruct ba; [inversion H2; subst; exact I | eapply Hb; exact H2].
-    + (* EUniOp *)
-      assert (Ha : forall st0 r0 st1, SyltSem.eval n e x st0 = (r0, st1) -> noab r0) by (intros st0 r0 st1 H; exact (IH k sc e x st0 r0 st1 Hf H)).
-      destruct op; (eapply noab_bind; [exact Hev | intros; eapply Ha; eassumption |]); intros va st1 _ H1.
-      * eapply noab_bind; [exact H1 | intros; eapply noab_as_value; eassumption |]. intros xa st2 _ H2.
-        eapply noab_bind; [exact H2 | intros; eapply noab_lift; eassumption |]. intros rv st3 _ H3. inversion H3; subst; exact I.
-      * eapply noab_bind; [exact H1 | intros; eapply noab_truth; eassumption |]. intros ba st2 _ H2. inversion H2; subst; exact I.
-    + inversion Hev; subst; exact I.
-    + inversion Hev; subst; exact I.
-Qed.
-
-Lemma NA_stmt_all n :
-  (forall k sc sc' e s st r st', frag_stmt pv sv bound k sc s = Some sc' -> SyltSem.exec n e s st = (r, st') -> noab r) /\
-  (forall k sc sc' e ss st r st', frag_stmts pv sv bound k sc ss = Some sc' -> SyltSem.exec_block n e ss st = (r, st') -> noab r).
-Proof.
-  induction n as [|n [IH1 IH2]].
-  - split; intros; cbn in *; match goal with H : _ = (_, _) |- _ => inversion H; subst; exact I end.
-  - split.
-    + intros k sc sc' e s st r st' Hf Hev. destruct k as [|k]; [discriminate|].
-      destruct s; try discriminate Hf; cbn [SyltSem.exec] in Hev.
-      * destruct (frag_stmt_def _ _ _ _ _ _ _ _ _ _ _ _ Hf) as (_ & _ & Hfe & _).
-        eapply noab_bind; [exact Hev | intros ? ? Hn; inversion Hn; subst; exact I |]. intros c st1 _ H1.
-        eapply noab_bind; [exact H1 | intros; eapply NA_eval_all; eassumption |]. intros v st2 _ H2.
-        eapply noab_bind; [exact H2 | intros ? ? Hn; inversion Hn; subst; exact I |]. intros ? st3 _ H3. inversion H3; subst; exact I.
-      * rewrite frag_stmt_block in Hf. destruct (frag_stmts pv sv bound k sc statements) eqn:Hs; [|discriminate Hf].
-        eapply noab_bind; [exact Hev | intros; eapply IH2; eassumption |]. intros ? st1 _ H1. inversion H1; subst; exact I.
-      * rewrite frag_stmt_sexpr in Hf. destruct (frag_expr pv k sc value) eqn:Hfe; [|discriminate Hf].
-        eapply noab_bind; [exact Hev | intros; eapply NA_eval_all; eassumption |]. intros ? st1 _ H1. inversion H1; subst; exact I.
-    + intros k sc sc' e ss st r st' Hf Hev. destruct ss as [|s ss]; cbn [SyltSem.exec_block] in Hev; [inversion Hev; subst; exact I|].
-      destruct k as [|k]; [discriminate|]. rewrite frag_stmts_cons in Hf.
-      destruct (frag_stmt pv sv bound k sc s) as [sc1|] eqn:Hs; [|discriminate Hf].
-      eapply noab_bind; [exact Hev | intros; eapply IH1; eassumption |]. intros e1 st1 _ H1. cbv beta in H1. exact (IH2 k sc1 sc' e1 ss st1 r st' Hf H1).
-Qed.
-
-Lemma NA_block_value n k sc sc' e body st r st' :
-  frag_stmts pv sv bound k sc body = Some sc' -> SyltSem.block_value n e body st = (r, st') -> noab r.
-Proof.
-  intros Hf Hev. destruct n as [|n]; [cbn in Hev; inversion Hev; subst; exact I|]. cbn [SyltSem.block_value] in Hev.
-  assert (Hwhole : forall r0 st0 st1, SyltSem.exec_block n e body st0 = (r0, st1) -> noab r0)
-    by (intros r0 st0 st1 H; exact (proj2 (NA_stmt_all n) k sc sc' e body st0 r0 st1 Hf H)).
-  assert (Hdefault : SyltSem.bind (SyltSem.exec_block n e body) (fun _ : senv => SyltSem.ret (SV Values.VLuaNil)) st = (r, st') -> noab r).
-  { intros H. eapply noab_bind; [exact H | intros; eapply Hwhole; eassumption |]. intros ? ? _ H1. inversion H1; subst; exact I. }
-  destruct (rev body) as [|last init_rev] eqn:Hrev; [apply Hdefault; exact Hev|].
-  assert (Hbody : body = rev init_rev ++ [last]) by (rewrite <- (rev_involutive body), Hrev; reflexivity).
-  destruct last; try (apply Hdefault; exact Hev).
-  rewrite Hbody in Hf. destruct (frag_stmts_app pv sv bound _ _ _ _ _ Hf) as (sc1 & k' & Hfi & Hfl).
-  destruct k' as [|k']; [discriminate|]. rewrite frag_stmts_cons in Hfl.
-  destruct k' as [|k'']; [discriminate|]. rewrite frag_stmt_sexpr in Hfl. destruct (frag_expr pv k'' sc1 value) eqn:Hfe; [|discriminate Hfl].
-  eapply noab_bind; [exact Hev | |].
-  - intros a0 st1 H. exact (proj2 (NA_stmt_all n) k sc sc1 e _ st a0 st1 Hfi H).
-  - intros e1 st1 _ H1. cbv beta in H1. exact (NA_eval_all n k'' sc1 e1 value st1 r st' Hfe H1).
-Qed.
-End NoAbrupt.
 
 (* ------------------------------------------------------------------ the whole program *)
 
@@ -597,7 +450,11 @@ Proof.
   assert (Hctx2 : ctx_ok bound [] [] E1 (bound + 1) cb).
   { constructor; [lia | intros t0 _; reflexivity | intros t0 [] | intros t0 Ht; apply HE1o; lia]. }
   destruct (SyltSem.block_value (S f') (frag_env pv sv) body (frag_state pv sv body)) as [rb stb] eqn:Hbv.
-  pose proof (NA_block_value pv sv bound _ _ _ _ _ _ _ _ _ Hfb Hbv) as Hna.
+  assert (Hna : noab rb).
+  { destruct rb as [v|o|[| |v]]; try exact I.
+    - cbn in Hgood. destruct Hgood.
+    - cbn in Hgood. destruct Hgood.
+    - exact (proj2 (proj2 (proj2 (NR_all pv sv bound (S f')))) k [] sc' _ body _ _ stb Hfb Hbv). }
   assert (Hint : interesting rb).
   { destruct rb as [v|o|cc]; [exact I | | destruct Hna]. cbn in Hgood. destruct o; try destruct Hgood; try exact I.
     exfalso. eapply SemSane.block_value_not_done. exact Hbv. }
